@@ -507,7 +507,12 @@ func C18(r *report.Report, tier string) {
 	}
 	rec(nil, depth)
 	states := map[string]bool{"": true}
-	par.Map("c18.seq", jobs, par.Options{}, func(i int, res *par.Result) {
+	par.Map("c18.seq", jobs, par.Options{Deadline: Deadline}, func(i int, res *par.Result) {
+		if res.Skipped {
+			r.Exhaustive = false
+			r.Add("jobs_not_run_time_budget", 1)
+			return
+		}
 		if res.Crashed || res.Err != "" {
 			a := jobs[i].(kvSeqArg)
 			r.Violate(report.Violation{Sig: "worker-died|" + kvHist(a.Ops), Detail: res.Err + tail(res.Stderr, 3000), Replay: map[string]interface{}{"job": "c18.seq", "arg": a}})
